@@ -82,7 +82,9 @@ inline void* arena_allocate(Arena* a, size_t n, size_t elem) {
   Exempt e;
   if (a == &default_arena()) {
     count("alloc_via_default_constructed_allocator");
-    c19_fail("alloc|allocation-through-default-constructed-allocator" + during(),
+    static const bool trap = getenv("C19_TRAP_DEFAULT_ALLOC") != nullptr;   // debugging aid: stack trace of the offender
+    if (trap) { --exempt_depth(); char* volatile nil = nullptr; *nil = 0; }
+    c19_fail("alloc|allocation-through-default-constructed-allocator",
              "allocate(" + std::to_string(n) + " x " + std::to_string(elem) + " bytes) on an allocator instance that was default-constructed inside the library, not the one supplied");
   }
   if (n > (size_t(1) << 40) / (elem ? elem : 1)) throw std::bad_alloc();
